@@ -16,6 +16,7 @@ package main
 // a refusal is a failed obligation.
 
 import (
+	"regexp"
 	"fmt"
 	"go/ast"
 	"go/constant"
@@ -62,6 +63,11 @@ type itr struct {
 	rangeOnce string
 	brkVar    string
 	worldExt  map[string]string // methods of the translated struct itself kept as state-threading externs
+	effFn     map[string]string // package-level functions (`toIds`, `ecs.TypeID`) kept as state-threading externs; object arguments are dropped
+	inject    map[string]string // concrete type -> injection into an interface-typed location (uninterpreted constructor)
+	selfRet   bool              // builder methods return their receiver: that result is dropped
+	curSelfRet bool
+	reflectIf string            // extern that stands for an `if` over reflect calls assigning one Boolean
 	tokField  map[string]string // `tok.field.Method(args)` on an object outside the module -> extern (tok.* = read, eff.* = write)
 	shadow    map[string]bool
 	joinIf    map[string]bool   // functions whose non-leaving if statements are joined
@@ -99,6 +105,64 @@ func (t *itr) derefCheck(recvT types.Type, recv string, pre *[]string) {
 }
 
 func (t *itr) usesEffExt(name string) bool { _, ok := t.effExt[name]; return ok }
+
+// injected: a value of a concrete type stored into an interface-typed location — an uninterpreted constructor
+// per concrete type (`ofMaskF`, `ofMaskFilterF`, `ofCachedF`); objects outside the module are their own token
+func (t *itr) injected(e ast.Expr, pre *[]string) (string, bool) {
+	tp := t.typeOf(e)
+	if _, isIface := tp.Underlying().(*types.Interface); isIface {
+		return "", false
+	}
+	inner := e
+	if u, ok := e.(*ast.UnaryExpr); ok && u.Op == token.AND {
+		inner = u.X
+	}
+	bt := tp
+	if p, ok := bt.(*types.Pointer); ok {
+		bt = p.Elem()
+	}
+	n, ok := bt.(*types.Named)
+	if !ok {
+		return "", false
+	}
+	if t.tokens[n.Obj().Name()] {
+		return t.expr(inner, pre), true
+	}
+	inj, ok := t.inject[n.Obj().Name()]
+	if !ok {
+		return "", false
+	}
+	return fmt.Sprintf("(%s %s)", inj, t.expr(inner, pre)), true
+}
+
+// pkgCall: `ecs.F(args)` — a function of another package
+func (t *itr) pkgCall(sel *ast.SelectorExpr) (string, bool) {
+	id, ok := sel.X.(*ast.Ident)
+	if !ok {
+		return "", false
+	}
+	if _, isPkg := t.p.info.Uses[id].(*types.PkgName); !isPkg {
+		return "", false
+	}
+	return id.Name + "." + sel.Sel.Name, true
+}
+
+// effFnCall: a function kept as a state-threading extern; arguments that are objects outside the module are dropped
+func (t *itr) effFnCall(ext string, argsE []ast.Expr, pre *[]string) string {
+	if !t.curEff {
+		return t.fail("state-threading function %s called from a function that does not thread the hidden state", ext)
+	}
+	as := []string{}
+	for _, a := range argsE {
+		if _, isTok := t.tokenOf(t.typeOf(a)); isTok {
+			continue
+		}
+		as = append(as, t.expr(a, pre))
+	}
+	rv := t.tmp("r")
+	*pre = append(*pre, fmt.Sprintf("let (ext, %s) := %s ext %s", rv, ext, strings.Join(as, " ")))
+	return rv
+}
 
 // tokFieldCall: `a.f.M(args)` where a is an object outside the module and f one of its members that is
 // itself a structure (the neighbour map of a graph node): the whole access is one extern on a
@@ -238,6 +302,10 @@ func (t *itr) leanType(tp types.Type) string {
 			return "BitVec 8"
 		case "Mask":
 			return t.maskNS + ".Mask"
+		case "MaskFilter":
+			if t.inject != nil {
+				return t.maskNS + ".MaskFilter"
+			}
 		}
 		if t.opaque[n] {
 			return "Unit" // a field no translated method touches
@@ -747,6 +815,9 @@ func (t *itr) call(x *ast.CallExpr, pre *[]string, wantValue bool) string {
 		case "panic":
 			return t.fail("panic in expression position")
 		}
+		if ext, ok := t.effFn[id.Name]; ok {
+			return t.effFnCall(ext, x.Args, pre)
+		}
 		if pf, ok := t.pureFn[id.Name]; ok {
 			args := []string{}
 			for _, a := range x.Args {
@@ -796,6 +867,31 @@ func (t *itr) call(x *ast.CallExpr, pre *[]string, wantValue bool) string {
 			}
 		}
 		return t.fail("call of a function-typed field: %s", types.ExprString(x.Fun))
+	}
+	if key, ok := t.pkgCall(sel); ok {
+		if ext, ok := t.effFn[key]; ok {
+			return t.effFnCall(ext, x.Args, pre)
+		}
+		if pf, ok := t.pureFn[key]; ok {
+			as := []string{}
+			for _, a := range x.Args {
+				as = append(as, t.expr(a, pre))
+			}
+			return fmt.Sprintf("(%s %s)", pf, strings.Join(as, " "))
+		}
+		return t.fail("call into another package: %s", key)
+	}
+	if rt := t.typeOf(sel.X); rt != nil {
+		bt := rt
+		if p, ok := bt.(*types.Pointer); ok {
+			bt = p.Elem()
+		}
+		if n, ok := bt.(*types.Named); ok {
+			if ext, ok := t.effFn[n.Obj().Name()+"."+sel.Sel.Name]; ok {
+				// a method of an object reached through the world (`w.Cache().Register(f)`): the receiver is the hidden state
+				return t.effFnCall(ext, x.Args, pre)
+			}
+		}
 	}
 	if ext, rcv, ok := t.tokFieldCall(sel); ok {
 		as := []string{t.expr(rcv, pre)}
@@ -1358,6 +1454,9 @@ func (t *itr) stmts(list []ast.Stmt, ind string) []string {
 	case *ast.ReturnStmt:
 		pre := []string{}
 		val := ""
+		if t.curSelfRet {
+			return append(out, ind+t.ret(""))
+		}
 		if len(x.Results) == 1 {
 			opt := len(t.curResT) == 1 && strings.HasPrefix(t.curResT[0], "Option")
 			if id, ok := x.Results[0].(*ast.Ident); ok && id.Name == "nil" && opt {
@@ -1445,6 +1544,15 @@ func (t *itr) stmts(list []ast.Stmt, ind string) []string {
 		}
 		if x.Tok != token.DEFINE && x.Tok != token.ASSIGN {
 			return append(out, ind+t.fail("unsupported assignment operator %s", x.Tok))
+		}
+		if len(x.Lhs) == 1 && len(x.Rhs) == 1 && x.Tok == token.ASSIGN && t.inject != nil {
+			if _, isIface := t.typeOf(x.Lhs[0]).Underlying().(*types.Interface); isIface {
+				if v, ok := t.injected(x.Rhs[0], &pre); ok {
+					pre = append(pre, t.assignPath(x.Lhs[0], v, nil)...)
+					emit(pre)
+					return append(out, t.stmts(rest, ind)...)
+				}
+			}
 		}
 		if len(x.Lhs) == 1 && len(x.Rhs) == 1 && x.Tok == token.ASSIGN {
 			if u, ok := x.Rhs[0].(*ast.UnaryExpr); ok && u.Op == token.AND && strings.HasPrefix(t.leanType(t.typeOf(x.Lhs[0])), "Option (") {
@@ -1545,6 +1653,9 @@ func (t *itr) stmts(list []ast.Stmt, ind string) []string {
 				// v, ok := x.(*T): only the flag is translated, as an uninterpreted predicate on the value
 				tn := types.ExprString(ta.Type)
 				tn = strings.TrimPrefix(tn, "*")
+				if i := strings.LastIndex(tn, "."); i >= 0 {
+					tn = tn[i+1:]
+				}
 				if id, isId := x.Lhs[0].(*ast.Ident); isId && id.Name != "_" && tn == "CachedFilter" {
 					// cached, ok := f.(*CachedFilter): the registered filter behind the value, if it is one
 					v := t.tmp("f")
@@ -1715,6 +1826,39 @@ func (t *itr) stmts(list []ast.Stmt, ind string) []string {
 		}
 		return append(out, ind+t.fail("unsupported range loop"))
 	case *ast.IfStmt:
+		if t.reflectIf != "" && x.Else == nil && x.Init == nil {
+			usesReflect := false
+			var arg *ast.Ident
+			ast.Inspect(x.Cond, func(n ast.Node) bool {
+				if id, ok := n.(*ast.Ident); ok {
+					if _, isPkg := t.p.info.Uses[id].(*types.PkgName); isPkg && id.Name == "reflect" {
+						usesReflect = true
+					}
+					if arg == nil {
+						if _, isIface := t.typeOf(id).Underlying().(*types.Interface); isIface {
+							arg = id
+						}
+					}
+				}
+				return true
+			})
+			if usesReflect && arg != nil {
+				// a test by reflection that sets one Boolean: an uninterpreted predicate of the inspected type
+				var target *ast.Ident
+				for _, s := range x.Body.List {
+					if as, ok := s.(*ast.AssignStmt); ok && as.Tok == token.ASSIGN && len(as.Lhs) == 1 {
+						if id, ok := as.Lhs[0].(*ast.Ident); ok {
+							target = id
+						}
+					}
+				}
+				if target == nil {
+					return append(out, ind+t.fail("reflective test without a Boolean result"))
+				}
+				out = append(out, fmt.Sprintf("%slet %s := (%s || %s %s)", ind, target.Name, target.Name, t.reflectIf, arg.Name))
+				return append(out, t.stmts(rest, ind)...)
+			}
+		}
 		if x.Init != nil {
 			// the init statement's variables are fresh names here; translate it in front
 			x2 := *x
@@ -2364,7 +2508,12 @@ func (t *itr) emitFunc(sb *strings.Builder, goName string) {
 		extraT = append(extraT, "Ext")
 	}
 	resT := ""
-	if fd.Type.Results != nil {
+	t.curSelfRet = false
+	if t.selfRet && fd.Recv != nil && fd.Type.Results != nil && len(fd.Type.Results.List) == 1 &&
+		types.ExprString(fd.Type.Results.List[0].Type) == types.ExprString(fd.Recv.List[0].Type) {
+		t.curSelfRet = true // `return f`: the receiver is handed back anyway
+	}
+	if fd.Type.Results != nil && !t.curSelfRet {
 		rts := []string{}
 		for _, f := range fd.Type.Results.List {
 			if len(f.Names) > 0 {
@@ -2684,4 +2833,96 @@ func genDispatch(repo string, tiny bool) (string, []string) {
 	}
 	fmt.Fprintf(&sb, "end %s\n", ns)
 	return sb.String(), t.errs
+}
+
+// genGeneric: the generic filter builder (generic/compiled.go `compiledQuery`, and `Filter0` of
+// generic/query_generated.go as the representative of the generated FilterN family — the fact tables show that
+// the N variants have the same bodies). The world, reflection types and core filters are objects outside the module.
+func genGeneric(repo string, tiny bool) (string, []string) {
+	gp, err := loadPkg(repo, "generic", "github.com/mlange-42/arche/generic", tiny)
+	if err != nil {
+		return "", []string{err.Error()}
+	}
+	ns, mns, imp, pns := "ArcheGen.G256", "ArcheGen.M256", "ArcheGen.Pool256", "ArcheGen.P256"
+	if tiny {
+		ns, mns, imp, pns = "ArcheGen.G64", "ArcheGen.M64", "ArcheGen.Pool64", "ArcheGen.P64"
+	}
+	t := &itr{p: gp, structs: map[string]bool{"compiledQuery": true, "Filter0": true, "filter": true, "Entity": true, "CachedFilter": true}, opaque: map[string]bool{}, maskNS: mns}
+	t.ns = ns
+	t.ptrOption = true
+	t.tokens = map[string]bool{"World": true, "RelationFilter": true, "Cache": true}
+	t.inject = map[string]string{"Mask": "ofMaskF", "MaskFilter": "ofMaskFilterF", "CachedFilter": "ofCachedF"}
+	t.reflectIf = "isRelationTypeF"
+	t.externs = map[string]string{
+		"eff.toIds":          "Ext → GoSlice GoAny → Ext × GoSlice (BitVec 8)",
+		"eff.toMask":         "Ext → GoSlice GoAny → Ext × " + mns + ".Mask",
+		"eff.toMaskOptional": "Ext → GoSlice (BitVec 8) → GoSlice GoAny → Ext × " + mns + ".Mask",
+		"eff.typeID":         "Ext → GoAny → Ext × BitVec 8",
+		"eff.cacheRegister":  "Ext → GoAny → Ext × CachedFilter",
+		"eff.cacheUnreg":     "Ext → CachedFilter → Ext × GoAny",
+		"pure.ofMask":        mns + ".Mask → GoAny",
+		"pure.ofMaskFilter":  mns + ".MaskFilter → GoAny",
+		"pure.ofCached":      "CachedFilter → GoAny",
+		"pure.relFilter":     mns + ".MaskFilter → Entity → GoAny",
+		"pure.isRelationType": "GoAny → Bool",
+		"assert.CachedFilterValue": "GoAny → Option CachedFilter",
+	}
+	t.extOwner = map[string]string{"toIdsF": "eff.toIds", "toMaskF": "eff.toMask", "toMaskOptionalF": "eff.toMaskOptional", "typeIDF": "eff.typeID",
+		"cacheRegisterF": "eff.cacheRegister", "cacheUnregisterF": "eff.cacheUnreg", "ofMaskF": "pure.ofMask", "ofMaskFilterF": "pure.ofMaskFilter",
+		"ofCachedF": "pure.ofCached", "relFilterF": "pure.relFilter", "isRelationTypeF": "pure.isRelationType", "asCachedFilterF": "assert.CachedFilterValue"}
+	t.effFn = map[string]string{"toIds": "toIdsF", "toMask": "toMaskF", "toMaskOptional": "toMaskOptionalF", "ecs.TypeID": "typeIDF",
+		"Cache.Register": "cacheRegisterF", "Cache.Unregister": "cacheUnregisterF"}
+	t.pureFn = map[string]string{"ecs.NewRelationFilter": "relFilterF"}
+	t.ifaceExt = map[string]string{}
+	t.effIface = map[string]string{}
+	t.effExt = map[string]string{}
+	t.tokExt = map[string]string{}
+	t.fieldExt = map[string]string{}
+	t.usesEff = map[string]bool{"compiledQuery.Compile": true, "compiledQuery.Register": true, "compiledQuery.Unregister": true,
+		"Filter0.Filter": true, "Filter0.Register": true, "Filter0.Unregister": true}
+	t.nilChecks = map[string]bool{"compiledQuery.Compile": true}
+	t.joinIf = map[string]bool{"compiledQuery.Compile": true, "compiledQuery.Unregister": true, "Filter0.Filter": true, "Filter0.WithRelation": true}
+	t.selfRet = true
+	t.needExt = map[string][]string{}
+	var sb strings.Builder
+	fmt.Fprintf(&sb, "/- GENERATED by /verif/extract (imperative translator) from the Go source of /repo — do not edit. -/\nimport %s\nset_option linter.unusedVariables false\nnamespace %s\nopen ArcheGen %s\n\n", imp, ns, pns)
+	t.emitStruct(&sb, "compiledQuery")
+	t.emitStruct(&sb, "Filter0")
+	funcs := []string{"compiledQuery.Compile", "compiledQuery.Reset", "compiledQuery.Register", "compiledQuery.Unregister",
+		"Filter0.With", "Filter0.Without", "Filter0.Exclusive", "Filter0.WithRelation", "Filter0.Filter", "Filter0.Register", "Filter0.Unregister"}
+	direct := map[string]map[string]bool{}
+	calls := map[string][]string{"Filter0.With": {"compiledQuery.Reset"}, "Filter0.Without": {"compiledQuery.Reset"}, "Filter0.Exclusive": {"compiledQuery.Reset"},
+		"Filter0.WithRelation": {"compiledQuery.Reset"}, "Filter0.Filter": {"compiledQuery.Compile"}, "Filter0.Register": {"compiledQuery.Compile", "compiledQuery.Register"},
+		"Filter0.Unregister": {"compiledQuery.Unregister"}}
+	nerr := len(t.errs)
+	for _, f := range funcs {
+		var tmp strings.Builder
+		t.emitFunc(&tmp, f)
+		direct[f] = map[string]bool{}
+		for ext := range t.extOwner {
+			if strings.Contains(tmp.String(), ext) {
+				direct[f][ext] = true
+			}
+		}
+	}
+	t.errs = t.errs[:nerr]
+	for _, f := range funcs {
+		for _, g := range calls[f] {
+			for e := range direct[g] {
+				direct[f][e] = true
+			}
+		}
+	}
+	for _, f := range funcs {
+		for e := range direct[f] {
+			t.needExt[f] = append(t.needExt[f], e)
+		}
+		sort.Strings(t.needExt[f])
+	}
+	for _, f := range funcs {
+		t.emitFunc(&sb, f)
+	}
+	fmt.Fprintf(&sb, "end %s\n", ns)
+	// `include` is a keyword of Lean: the Go identifier of that name is written `included`
+	return regexp.MustCompile(`\binclude\b`).ReplaceAllString(sb.String(), "included"), t.errs
 }
